@@ -322,6 +322,8 @@ def check_scalar(case):
         dlt = 1e-12 * scale
         near_pts = [u - dlt, u + dlt] + ([0.] if abs(u) <= dlt else []) + ([x] if abs(u - x) <= dlt else [])
         obj = min([obj] + [R.prox_obj_scalar(rp, j, v, x, s) for v in near_pts])
+        if abs(u - ua) <= dlt:      # within the stated distance of the oracle's own minimiser
+            obj = min(obj, mv)
     if obj > mv + tol:
         branch = None
         if name == "LogSumPenalty":
